@@ -10,6 +10,7 @@ import Driver.Heartbeat
 import Driver.Ack
 import Driver.Mw
 import Driver.Dispatch
+import Driver.Life
 /-
   Line-protocol driver: one request per line on stdin, one canonical answer per line on stdout.
   The same request lines are executed by the Go harness against the real implementation.
@@ -32,6 +33,7 @@ def step (line : String) : String :=
   | "ack" :: rest => ackLine rest
   | "mw" :: rest => mwLine rest
   | "ds" :: rest => dsLine toks.tail!
+  | "lc" :: rest => lcLine toks.tail!
   | "rc" :: rest => rcLine toks.tail!
   | _ => "bad-op"
 
